@@ -10,7 +10,7 @@ from vlib.runner import hyp_explore
 
 LEVEL = "exploration"
 RULE = ("Hypothesis-generated hand-written phases (2-10 statements: Assign with loop nests of depth 0-2 and constant or "
-        "variable bounds, YieldState, FailStep, Nop; guards over <= 4 free flags: c, not c, and/or of those, True, False; "
+        "variable bounds, YieldState, FailStep, Nop; guards over <= 4 free flags: c, not c, and/or of those, True, False, and comparisons of 2 numeric variables valued in {0, 1, NaN}; looped statements with and without a mention of their counter; "
         "random DAG over a random permutation of ids so id order and topological order are uncorrelated) and the phases of "
         "builder-made programs (guards = builder flags, treated as free booleans). create_ast_from_phase is walked by an "
         "independent trace walker and by a recording subclass of the generic backend walker under ALL valuations of the "
